@@ -68,6 +68,14 @@ def run(tier, seed):
                     extra = dict(extra, name=b"gone", hosts=gone_hosts, prefixes=rnd.choice([[b"/"], [b"/api"], [b"/", b"/a"]]),
                                  targets=[{"name": b"tgone:80", "healthy": True}])
                     h = [extra] + h[:1] + h + [{"op": "remove", "name": b"gone"}]
+                if variant == 1 and rnd.random() < 0.5:
+                    # every service is first deployed on its final hosts with OTHER prefixes, then redeployed with the final
+                    # ones: routing must follow the prefixes of the last deploy
+                    pre = []
+                    for c in order:
+                        alt = [p for p in rnd.sample(PREFIXES, rnd.choice([1, 2])) if p not in c["prefixes"]] or [b"/zz-old"]
+                        pre.append(dict(c, prefixes=alt, targets=[{"name": b"told-" + c["name"] + b":80", "healthy": True}]))
+                    h = pre + h
                 if variant == 2:                       # through a restart
                     k = rnd.randint(0, len(h))
                     h = h[:k] + [{"op": "restart"}] + h[k:]
